@@ -147,6 +147,13 @@ pub enum Surgery {
     /// nesting is within the library's limit while the number of nested applications is
     /// `records ^ depth`.
     InstallContextFanout { glyph: u16, records: u16, depth: u8, variant: u64 },
+    /// Replace GSUB (or GPOS) by a table whose lists alias: `scripts` ScriptRecords that all name
+    /// ONE ScriptTable, whose `langsys` LangSysRecords (and the default) all name ONE LangSys with
+    /// `features` feature indices; `frecs` FeatureRecords that all name ONE FeatureTable with
+    /// `lookups` lookup indices; one harmless SingleSubst / SinglePos lookup on `glyph`. Offsets
+    /// may legitimately repeat, so a table of at most ~200 KB describes up to
+    /// scripts x langsys x features (resp. frecs x lookups) entries once every record owns its copy.
+    InstallAliasedLists { table: String, glyph: u16, scripts: u16, langsys: u16, features: u16, frecs: u16, lookups: u16 },
     /// CFF2 font without subroutines (every CFF2 font of the corpus): move the programs of
     /// `glyphs` into a new local subroutine INDEX (appended to the table together with a copy of
     /// the Private DICT that names it and a new CharStrings INDEX; the Font DICT and Top DICT
